@@ -911,3 +911,17 @@ def c15_lookup(cc, code, bban):
             pass
     rows2 = registry.get("bank_code").get((cc, code)) or []
     return "ok" if [id(e) for e in rows2] == before and [dict(e) for e in rows2] == snap else "registry changed"
+
+
+def c13_hashseed():
+    """real library in fresh interpreters under different PYTHONHASHSEED values: seeded no-country draws must agree"""
+    import os
+    import subprocess
+    import sys
+
+    code = "from random import Random; from schwifty import IBAN; print([str(IBAN.random(random=Random(s))) for s in range(40)])"
+    outs = set()
+    for hs in ("0", "1", "2", "3", "12345"):
+        p = subprocess.run([sys.executable, "-c", code], capture_output=True, text=True, env={**os.environ, "PYTHONHASHSEED": hs})
+        outs.add(p.stdout.strip())
+    return "ok" if len(outs) == 1 else "differs"
